@@ -167,6 +167,24 @@ func runOne(spec RunSpec, verbose bool) *RunResult {
 	if n := os.Getenv("SYMGO_WORKERS"); n != "" {
 		fmt.Sscan(n, &workers)
 	}
+	// cross-checked in the thorough tier: every assert / cover / frozen-write obligation, and an evenly spaced sample of
+	// at most 24 of the (often thousands of) no-panic / unwinding obligations of the run
+	crossPick := make([]bool, len(obls))
+	var routine []int
+	for i, o := range obls {
+		if o.Kind == "panic" || o.Kind == "unwind" {
+			routine = append(routine, i)
+		} else {
+			crossPick[i] = true
+		}
+	}
+	step := (len(routine) + 23) / 24
+	if step < 1 {
+		step = 1
+	}
+	for k := 0; k < len(routine); k += step {
+		crossPick[routine[k]] = true
+	}
 	var wg sync.WaitGroup
 	var mu sync.Mutex
 	next := 0
@@ -197,7 +215,7 @@ func runOne(spec RunSpec, verbose bool) *RunResult {
 					mu.Lock()
 					cpu += d
 					mu.Unlock()
-					if spec.Cross {
+					if spec.Cross && crossPick[i] {
 						// a cross-check that does not finish in a minute is recorded, it is not a disagreement
 						ct := spec.Timeout
 						if ct > 20 {
